@@ -13,36 +13,35 @@ Lemma remove_host_known s e id :
   /\ s_refresh (remove_host s e) = s_refresh s.
 Proof.
   intros Hinv He. pose proof (inv_id _ Hinv _ _ He) as Hid. unfold remove_host. rewrite Hid. simpl.
-  split; [reflexivity|]. split; [|auto]. unfold remove_host_ring. rewrite He. reflexivity.
+  split; [reflexivity|]. split; [|auto]. apply remove_host_ring_hosts.
 Qed.
 
 Lemma remove_all_ok : forall (l : zmap hostinfo) s,
-  ring_inv (s_ring s) -> addr_inj (s_ring s) -> NoDup (mkeys l) ->
+  ring_inv (s_ring s) -> NoDup (mkeys l) ->
   (forall id e, In (id, e) l -> mget id (hosts (s_ring s)) = Some e) ->
   let s' := remove_all s l in
-  ring_inv (s_ring s') /\ addr_inj (s_ring s')
+  ring_inv (s_ring s')
   /\ (forall id, mget id (hosts (s_ring s')) = if zmem id (mkeys l) then None else mget id (hosts (s_ring s)))
   /\ (forall id, In id (s_pool s') <-> In id (s_pool s) /\ ~ In id (mkeys l))
   /\ (forall a, In a (s_log s') <-> In a (s_log s) \/ exists id, In id (mkeys l) /\ a = PRemove id)
   /\ s_refresh s' = s_refresh s.
 Proof.
-  induction l as [|[id e] tl IH]; intros s Hinv Hinj Hnd Hin; cbv zeta.
-  - simpl. split; [exact Hinv|]. split; [exact Hinj|]. split; [reflexivity|]. split; [tauto|]. split; [|reflexivity].
+  induction l as [|[id e] tl IH]; intros s Hinv Hnd Hin; cbv zeta.
+  - simpl. split; [exact Hinv|]. split; [reflexivity|]. split; [tauto|]. split; [|reflexivity].
     intros a. split; [auto | intros [H|[id [[] _]]]; exact H].
   - assert (He : mget id (hosts (s_ring s)) = Some e) by (apply Hin; left; reflexivity).
     destruct (remove_host_known s e id Hinv He) as [Hr [Hh [Hp [Hlg Hrf]]]].
     simpl in Hnd. inversion Hnd as [|? ? Hnotin Hnd']; subst.
     assert (Hinv1 : ring_inv (s_ring (remove_host s e))).
-    { rewrite Hr. apply remove_host_ring_inv; [exact Hinv | apply inj_remove_ok; exact Hinj]. }
-    assert (Hinj1 : addr_inj (s_ring (remove_host s e))) by (rewrite Hr; apply addr_inj_remove; exact Hinj).
+    { rewrite Hr. apply remove_host_ring_inv. exact Hinv. }
     assert (Hin1 : forall id' e', In (id', e') tl -> mget id' (hosts (s_ring (remove_host s e))) = Some e').
     { intros id' e' H'. rewrite Hh. rewrite mget_mdel_other; [apply Hin; right; exact H'|].
       intros ->. apply Hnotin. change (In id (map fst tl)). apply in_map_iff. exists (id, e'). auto. }
-    specialize (IH (remove_host s e) Hinv1 Hinj1 Hnd' Hin1). cbv zeta in IH.
-    destruct IH as [I1 [I2 [I3 [I4 [I5 I6]]]]].
+    specialize (IH (remove_host s e) Hinv1 Hnd' Hin1). cbv zeta in IH.
+    destruct IH as [I1 [I3 [I4 [I5 I6]]]].
     change (remove_all s ((id, e) :: tl)) with (remove_all (remove_host s e) tl).
     change (mkeys ((id, e) :: tl)) with (id :: mkeys tl).
-    split; [exact I1|]. split; [exact I2|]. split; [|split; [|split]].
+    split; [exact I1|]. split; [|split; [|split]].
     + intros id0. rewrite I3, Hh, mget_mdel. rewrite zmem_cons.
       destruct (id0 =? id) eqn:E; simpl; [destruct (zmem id0 (mkeys tl)); reflexivity | reflexivity].
     + intros id0. rewrite I4, Hp, In_pool_del. simpl. split.
@@ -56,28 +55,57 @@ Proof.
 Qed.
 
 Lemma loop_inv_init r0 s :
-  s_ring s = r0 -> ring_inv r0 -> addr_inj r0 -> (forall id, In id (s_pool s) -> mget id (hosts r0) <> None) ->
-  loop_inv r0 (s_pool s) s (hosts r0) [].
+  s_ring s = r0 -> ring_inv r0 -> (forall id, In id (s_pool s) -> mget id (hosts r0) <> None) ->
+  loop_inv r0 (s_pool s) s (hosts r0) [] [].
 Proof.
-  intros <- Hinv Hinj Hpool. constructor; auto.
+  intros <- Hinv Hpool. constructor; auto.
   - apply (inv_nodup _ Hinv).
+  - intros id. split; [intros [] | intros [h [[] _]]].
   - intros h [].
   - intros h [].
-  - intros h [].
+  - intros id [].
   - intros h [].
 Qed.
+
+Lemma host_from_row_valid r h : host_from_row r = Some h -> invalid_connect_addr h = false.
+Proof.
+  unfold host_from_row. destruct (invalid_connect_addr r) eqn:E; [discriminate|]. intros H. injection H as <-.
+  unfold invalid_connect_addr in *. apply negb_false_iff in E. apply negb_false_iff.
+  unfold connect_addr at 1. simpl. rewrite E. exact E.
+Qed.
+
+(* ids of the first reports = ids of all reports *)
+Lemma first_by_id_ids : forall hs seen id,
+  In id (map h_id (first_by_id seen hs)) <-> In id (map h_id hs) /\ ~ In id seen.
+Proof.
+  induction hs as [|h tl IH]; intros seen id; simpl; [tauto|].
+  destruct (zmem (h_id h) seen) eqn:E.
+  - rewrite IH. apply zmem_In in E. split; [tauto|]. intros [[<-|H] Hn]; [contradiction | auto].
+  - apply zmem_false in E. simpl. rewrite IH. simpl. split.
+    + intros [<-|[H1 H2]]; [auto | tauto].
+    + intros [[<-|H] Hn]; [auto|]. destruct (Z.eq_dec (h_id h) id); [auto | right; tauto].
+Qed.
+
+Lemma first_by_id_sub : forall hs seen h, In h (first_by_id seen hs) -> In h hs.
+Proof.
+  induction hs as [|x tl IH]; intros seen h; simpl; [tauto|].
+  destruct (zmem (h_id x) seen); [intros H; right; eapply IH; eauto|]. intros [<-|H]; [auto | right; eapply IH; eauto].
+Qed.
+
+Lemma effective_ids c report id : In id (map h_id (effective c report)) <-> In id (reported_ids c report).
+Proof. unfold effective, reported_ids. rewrite first_by_id_ids. simpl. tauto. Qed.
 
 (* the post-condition of a whole refresh *)
 Record refresh_post (c : cfg) (s : sess) (report : list hostinfo) (s' : sess) : Prop := mk_refresh_post {
   rp_ring : ring_inv (s_ring s');
-  rp_inj : addr_inj (s_ring s');
   (* the session knows exactly the accepted hosts of the report *)
   rp_exact : forall id, knows (s_ring s') id <-> In id (reported_ids c report);
-  (* with the reported record for new nodes and nodes whose address changed, the updated old record otherwise *)
-  rp_content : forall h, In h (accepted c report) -> get_host (s_ring s') (h_id h) = Some (refreshed (s_ring s) h);
+  (* (a host id reported twice counts once, by its first report: [effective])
+     with the reported record for new nodes and nodes whose address changed, the updated old record otherwise *)
+  rp_content : forall h, In h (effective c report) -> get_host (s_ring s') (h_id h) = Some (refreshed (s_ring s) h);
   (* pools only for known hosts; new and replaced nodes get a pool and are announced to the policy *)
   rp_pool : forall id, In id (s_pool s') -> knows (s_ring s') id;
-  rp_fresh : forall h, In h (accepted c report) -> fresh_record (s_ring s) h ->
+  rp_fresh : forall h, In h (effective c report) -> fresh_record (s_ring s) h ->
              In (h_id h) (s_pool s') /\ In (PAdd (h_id h)) (s_log s');
   (* vanished nodes lose their pool and are removed from the policy *)
   rp_vanished : forall id, knows (s_ring s) id -> ~ In id (reported_ids c report) ->
@@ -92,45 +120,65 @@ Proof.
 Qed.
 
 Theorem refresh_correct c s report :
-  ring_inv (s_ring s) -> addr_inj (s_ring s) -> (forall id, In id (s_pool s) -> knows (s_ring s) id) ->
-  report_ok c (s_ring s) report ->
+  ring_inv (s_ring s) -> (forall id, In id (s_pool s) -> knows (s_ring s) id) ->
+  report_ok c report ->
   exists s', refresh c s report = (s', ROk) /\ refresh_post c s report s'.
 Proof.
-  intros Hinv Hinj Hpool Hok. unfold refresh.
-  pose proof (refresh_loop_ok c (s_ring s) (s_pool s) report Hok report [] s (hosts (s_ring s)) eq_refl
-                (loop_inv_init _ s eq_refl Hinv Hinj Hpool)) as Hloop.
-  destruct (refresh_loop c s (hosts (s_ring s)) report) as [[s1 prev1] res]. simpl in Hloop.
-  destruct Hloop as [-> Hli]. exists (remove_all s1 prev1). split; [reflexivity|].
-  destruct Hli as [Hring Hinj1 Hpr Hpo Hpnd Hprov Hdone Hpool1 Hdpool Hlog Hdnp Hcover Hcontent Hmono].
+  intros Hinv Hpool Hok. unfold refresh.
+  pose proof (refresh_loop_ok c (s_ring s) (s_pool s) report Hok report [] [] s (hosts (s_ring s)) eq_refl (fun h H => H)
+                (loop_inv_init _ s eq_refl Hinv Hpool)) as Hloop.
+  destruct (refresh_loop c s (hosts (s_ring s)) [] report) as [[s1 prev1] res]. simpl in Hloop.
+  destruct Hloop as [-> [seen Hli]]. exists (remove_all s1 prev1). split; [reflexivity|].
+  destruct Hli as [Hring Hpr Hpo Hpnd Hsn Hprov Hpool1 Hdpool Hlog Hsnp Hcover Hcontent Hmono].
   assert (Hin1 : forall id e, In (id, e) prev1 -> mget id (hosts (s_ring s1)) = Some e).
   { intros id e H. apply Hpr. apply In_NoDup_mget; assumption. }
-  destruct (remove_all_ok prev1 s1 Hring Hinj1 Hpnd Hin1) as [R1 [R2 [R3 [R4 [R5 R6]]]]].
-  assert (Hkeys : forall id, zmem id (mkeys prev1) = true <-> mget id prev1 <> None).
-  { intros id. rewrite zmem_In. apply mget_keys. }
-  assert (Hnk : forall h, In h (accepted c report) -> zmem (h_id h) (mkeys prev1) = false).
-  { intros h Hh. apply zmem_false. rewrite mget_keys. rewrite (Hdnp _ Hh). auto. }
+  destruct (remove_all_ok prev1 s1 Hring Hpnd Hin1) as [R1 [R3 [R4 [R5 R6]]]].
+  assert (Hseen_rep : forall id, In id seen <-> In id (reported_ids c report)).
+  { intros id. rewrite Hsn, <- effective_ids, in_map_iff. split; intros [h [A B]]; exists h; auto. }
+  assert (Hnk : forall id, In id seen -> zmem id (mkeys prev1) = false).
+  { intros id Hid. apply zmem_false. rewrite mget_keys. rewrite (Hsnp _ Hid). auto. }
   constructor.
   - exact R1.
-  - exact R2.
-  - intros id. unfold knows, get_host. rewrite R3. rewrite In_reported. split.
+  - intros id. unfold knows, get_host. rewrite R3, <- Hseen_rep. split.
     + destruct (zmem id (mkeys prev1)) eqn:E; [congruence|]. intros Hx.
       destruct (mget id (hosts (s_ring s1))) as [x|] eqn:Ex; [|congruence].
-      destruct (Hprov _ _ Ex) as [Hq | [_ [h [Hd [Hid' _]]]]].
-      * exfalso. apply zmem_false in E. apply E. apply mget_keys. congruence.
-      * exists h. auto.
-    + intros [h [Hh <-]]. rewrite (Hnk _ Hh). apply Hdone. exact Hh.
-  - intros h Hh. unfold get_host. rewrite R3, (Hnk _ Hh). apply Hcontent. exact Hh.
+      destruct (Hprov _ _ Ex) as [Hq | [_ Hin]]; [|exact Hin].
+      exfalso. apply zmem_false in E. apply E. apply mget_keys. congruence.
+    + intros Hid. rewrite (Hnk _ Hid). apply Hsn in Hid. destruct Hid as [h [Hh <-]]. rewrite (Hcontent _ Hh). discriminate.
+  - intros h Hh. unfold get_host. rewrite R3, Hnk; [apply Hcontent; exact Hh|]. apply Hsn. exists h. auto.
   - intros id Hid. apply R4 in Hid. destruct Hid as [H1 H2]. unfold knows, get_host. rewrite R3.
     apply zmem_false in H2. rewrite H2. apply Hpool1. exact H1.
   - intros h Hh Hf. split.
-    + apply R4. split; [apply Hdpool; assumption|]. apply zmem_false. apply Hnk. exact Hh.
+    + apply R4. split; [apply Hdpool; assumption|]. apply zmem_false. apply Hnk. apply Hsn. exists h. auto.
     + apply R5. left. apply Hlog; assumption.
   - intros id Hk Hnr. unfold knows, get_host in Hk. destruct (mget id (hosts (s_ring s))) as [e|] eqn:E; [|congruence].
-    destruct (Hcover _ _ E) as [Hq | [h [Hd Hid']]].
+    destruct (Hcover _ _ E) as [Hq | Hq].
     + assert (Hm : In id (mkeys prev1)) by (apply mget_keys; congruence). split.
       * intros H. apply R4 in H. tauto.
       * apply R5. right. exists id. auto.
-    + exfalso. apply Hnr. apply In_reported. exists h. auto.
+    + exfalso. apply Hnr. apply Hseen_rep. exact Hq.
   - intros id Hid Hr. apply R4. split; [apply Hmono; exact Hid|].
-    apply In_reported in Hr. destruct Hr as [h [Hh <-]]. apply zmem_false. apply Hnk. exact Hh.
+    apply zmem_false. apply Hnk. apply Hseen_rep. exact Hr.
+Qed.
+
+(* refresh from the rows the control node returned: either a row has no usable address, the refresh
+   returns an error and nothing changes, or the refresh succeeds with the post-condition above *)
+Theorem refresh_rows_correct c s local rows :
+  ring_inv (s_ring s) -> (forall id, In id (s_pool s) -> knows (s_ring s) id) ->
+  match get_hosts local rows with
+  | None => refresh_rows c s local rows = (s, RErrReport)
+  | Some report => exists s', refresh_rows c s local rows = (s', ROk) /\ refresh_post c s report s'
+  end.
+Proof.
+  intros Hinv Hpool. unfold refresh_rows. destruct (get_hosts local rows) as [report|] eqn:E; [|reflexivity].
+  apply refresh_correct; auto.
+  intros h Hh. unfold accepted in Hh. apply filter_In in Hh. destruct Hh as [Hh _].
+  unfold get_hosts in E. destruct (host_from_row local) as [l|] eqn:El; [|discriminate].
+  destruct (peers_from_rows rows) as [hs|] eqn:Ep; [|discriminate]. injection E as <-.
+  destruct Hh as [<-|Hh]; [eapply host_from_row_valid; eauto|].
+  clear El. revert hs Ep Hh. induction rows as [|r tl IH]; simpl; intros hs Ep Hh.
+  - injection Ep as <-. contradiction.
+  - destruct (host_from_row r) as [x|] eqn:Er; [|discriminate].
+    destruct (peers_from_rows tl) as [hs'|]; [|discriminate]. injection Ep as <-.
+    destruct (is_valid_peer x); [destruct Hh as [<-|Hh]; [eapply host_from_row_valid; eauto | eapply IH; eauto] | eapply IH; eauto].
 Qed.
